@@ -48,6 +48,12 @@ func (fc *funcContext) Write(b []byte) (int, error) {
 }
 
 func (fc *funcContext) Printf(format string, values ...any) {
+	if !fc.posAvailable && fc.pos.IsValid() {
+		// Every generated line of a statement carries the statement's position,
+		// not only the first one (e.g. the condition line of a loop, or the
+		// later lines of a multi-value assignment).
+		fc.posAvailable = true
+	}
 	fc.Write([]byte(fc.Indentation(0)))
 	fmt.Fprintf(fc, format, values...)
 	fc.Write([]byte{'\n'})
